@@ -37,10 +37,10 @@ pub trait AsyncWrite: Sized {
     spec fn is_shutdown(&self) -> bool;
     spec fn zero_writes(&self) -> nat;
 
-    fn poll_write(&mut self, cx: &mut Context<'_>, buf: &BytesMut) -> (r: Poll<io::Result<usize>>)
+    fn poll_write<B: ByteView + ?Sized>(&mut self, cx: &mut Context<'_>, buf: &B) -> (r: Poll<io::Result<usize>>)
         ensures
-            r matches Poll::Ready(Ok(n)) ==> n <= buf@.len() && final(self).written() == old(self).written() + buf@.subrange(0, n as int)
-                && final(self).zero_writes() == old(self).zero_writes() + (if n == 0 && buf@.len() > 0 { 1nat } else { 0nat }),
+            r matches Poll::Ready(Ok(n)) ==> n <= buf.bv().len() && final(self).written() == old(self).written() + buf.bv().subrange(0, n as int)
+                && final(self).zero_writes() == old(self).zero_writes() + (if n == 0 && buf.bv().len() > 0 { 1nat } else { 0nat }),
             !(r matches Poll::Ready(Ok(_))) ==> final(self).written() == old(self).written() && final(self).zero_writes() == old(self).zero_writes(),
             final(self).is_shutdown() == old(self).is_shutdown();
 
@@ -153,9 +153,9 @@ impl<T, U> Framed<T, U> {
             self.io.is_shutdown() == old(self).io.is_shutdown(),
             self.read_buf == old(self).read_buf && self.flags == old(self).flags && self.codec == old(self).codec,
         decreases self.write_buf@.len(),
-//@insert after="while !(&mut self.write_buf).is_empty() {"
+//@insert loop_start=1
             let ghost b0 = self.write_buf@;
-//@insert arm_end="while !(&mut self.write_buf).is_empty()"
+//@insert loop_end=1
             proof {
                 // what the transport accepted (a prefix of the buffer) is exactly what has been removed from the buffer
                 assert(b0.subrange(0, n as int) + b0.subrange(n as int, b0.len() as int) =~= b0);
